@@ -28,6 +28,7 @@ void rt_reset(void);
 void rt_reg(const void* base, size_t bytes, int loc_base, int elem);
 /* values in [base, base+bytes) print as id_base + (v-base)/elem */
 void rt_name(const void* base, size_t bytes, long id_base, int elem);
+void rt_bias(long loc, long bias);   /* report the values at loc minus bias */
 void rt_reg_rest(const void* base, size_t bytes, int loc_base);   /* catch-all, only with RT_CATCHALL=1 (search mode) */
 /* run one case: nthreads bodies under the schedule, then round-robin drain of
  * at most drain_max steps.  returns 0 ok, 1 if threads were still live. */
